@@ -30,7 +30,17 @@ def _strip_comments(src):
 
 def scan_forbidden():
     hits = []
-    for path in glob.glob(os.path.join(env.THEORIES, "**", "*.v"), recursive=True):
+    listed = set()
+    for lst in glob.glob(os.path.join(env.COQ_DIR, "project.d", "*.txt")):
+        for line in open(lst):
+            line = line.strip()
+            if line and not line.startswith("#"):
+                listed.add(os.path.join(env.COQ_DIR, line))
+    # only the registered development is scanned: files still being written are not part of any build
+    for path in sorted(listed):
+        if not os.path.exists(path):
+            hits.append("%s: listed in project.d but missing" % os.path.relpath(path, env.VERIF))
+            continue
         body = _strip_comments(open(path).read())
         for m in FORBIDDEN.finditer(body):
             hits.append("%s: %s" % (os.path.relpath(path, env.VERIF), m.group(0)))
